@@ -323,7 +323,7 @@ func WriteEvidence(dir string, prog *core.Prog, res *Result, tier string, loadWa
 		"known_findings":       known,
 		"floor_failures":       res.FloorFails,
 		"load_wall_s":          loadWall,
-		"bounds":               "inlining depth <= 6 declared functions, loops unrolled 2 iterations, <= 20000 paths per entry; exceeding a bound yields an undecided obligation, which fails",
+		"bounds":               "inlining depth <= 10 declared functions (48 frames), loops unrolled 2 iterations, <= 20000 paths per entry; exceeding a bound yields an undecided obligation, which fails",
 		"all_obligations_file": "",
 	}
 	for k, v := range res.Extra {
